@@ -4,6 +4,9 @@ Bounded stand-in.  Families of small models (<= 6 cells, DAGs of <= 6 held eleme
 failing formulas, references read by name and by attribute path) x every history of <= 3 steps (quick: <= 2
 plus query/edit/query triples; thorough: <= 3 plus sampled 4-5 step histories) over the family's alphabet of
 queries (misses, hits, failures) and edits (clears, inputs, formula / reference / flag changes, deletions).
+Values assigned by the user are part of the histories as things HELD when their cells, their space (top-level or
+child space) or their ItemSpace is deleted: every (assignment, any step, deleting edit) triple and every
+(assignment, query, deleting edit, query) history is enumerated in both tiers.
 
 After EVERY step, through the public API only (cells.preds / succs / precedents, iteration of cells,
 model.tracegraph):
@@ -137,6 +140,16 @@ def _pn(n):
 _ns = {}
 exec(WALK, _ns)
 cells_of, keys_of, spaces_of, items_of, expr_of = _ns["_cells_of"], _ns["_keys"], _ns["_spaces_of"], _ns["_items"], _ns["_expr"]
+
+
+def spaces_of_space(sp):
+    """`sp` and every space below it."""
+    out = [sp]
+    for ch in sp.named_spaces.values():
+        out += spaces_of_space(ch)
+    for it in getattr(sp, "itemspaces", {}).values():
+        out += spaces_of_space(it)
+    return out
 
 
 def fullname(o):
@@ -297,8 +310,13 @@ def _cached(st, path, c):
     return st["flags"].get((path, c), True)
 
 
+def _gone(st, path):
+    """The space `path` was deleted, itself or with a space above it."""
+    return any(path == d or path.startswith(d + ".") for d in st["deleted_spaces"])
+
+
 def _alive(st, path, c):
-    return (path, c) not in st["deleted"] and path not in st["deleted_spaces"]
+    return (path, c) not in st["deleted"] and not _gone(st, path)
 
 
 def q(tagname, path, c, args=(), kwargs=None, form="call"):
@@ -315,12 +333,12 @@ def e_clear(tagname, kind, path, c, args=None):
 
 def e_setref(tagname, path, name, base):
     return (tagname, "edit", lambda st: ("setref", path, name, base + 10 * (st["step"] + 1))
-            if path not in st["deleted_spaces"] and (path, name) not in st["deleted_refs"] else None)
+            if not _gone(st, path) and (path, name) not in st["deleted_refs"] else None)
 
 
 def e_delref(tagname, path, name):
     return (tagname, "edit", lambda st: ("delref", path, name)
-            if path not in st["deleted_spaces"] and (path, name) not in st["deleted_refs"] else None)
+            if not _gone(st, path) and (path, name) not in st["deleted_refs"] else None)
 
 
 def e_formula(tagname, path, c, srcs):
@@ -350,7 +368,7 @@ def e_del(tagname, path, c):
 
 
 def e_simple(tagname, op):
-    return (tagname, "edit", lambda st: op if (len(op) < 2 or op[1] not in st["deleted_spaces"]) else None)
+    return (tagname, "edit", lambda st: op if (len(op) < 2 or op[0] == "raw" or not _gone(st, op[1])) else None)
 
 
 class Diamond(Family):
@@ -445,10 +463,12 @@ class Cross(Family):
 
     def spec(self, flags):
         sp = Spec()
-        sp.space("S"); sp.space("T")
-        sp.ref("S", "r", 5); sp.ref("T", "z", 4)
+        sp.space("S"); sp.space("T"); sp.space("T.Ch")
+        sp.ref("S", "r", 5); sp.ref("T", "z", 4); sp.ref("T.Ch", "y", 2)
         sp.ref("S", "rt", Obj("T")); sp.ref("S", "rb", Obj("T.b"))
         sp.cell("S", "a", F("a", "", "_model.T.b() + 1", "S.a", "()"))
+        sp.cell("S", "a3", F("a3", "", "_model.T.Ch.k() + 1", "S.a3", "()"))
+        sp.cell("T.Ch", "k", F("k", "", "y + 1", "T.Ch.k", "()", "('M.T.Ch.y',)"))
         sp.cell("S", "a2", F("a2", "", "rt.b() + rb() + rt.z", "S.a2", "()", "('M.T.z|refspace-attr',)"))
         sp.cell("T", "b", F("b", "", "_model.S.c() * z", "T.b", "()", "('M.T.z|byname',)"), flags.get(("T", "b"), True))
         sp.cell("S", "c", F("c", "", "r", "S.c", "()", "('M.S.r',)"), flags.get(("S", "c"), True))
@@ -458,6 +478,9 @@ class Cross(Family):
         def delspace(st):
             return ("delspace", "T") if "T" not in st["deleted_spaces"] else None
 
+        def delchild(st):
+            return ("delspace", "T.Ch") if not _gone(st, "T.Ch") else None
+
         def rename(st):
             return ("rename", "T", "b", "bb") if _alive(st, "T", "b") and ("T", "b") not in st["renamed"] else None
         return [q("q-top", "S", "a"), q("q-top-via-ref", "S", "a2"), q("q-mid-otherspace", "T", "b"), q("q-leaf", "S", "c"),
@@ -465,9 +488,12 @@ class Cross(Family):
                 e_setref("set-ref-otherspace", "T", "z", 5), e_setref("set-ref-byname", "S", "r", 6),
                 e_formula("formula-mid", "T", "b", [self.TB2]), e_del("del-mid", "T", "b"),
                 ("new-cells-otherspace", "edit", lambda st: ("newcells", "T", "n%d" % st["step"], F("n%d" % st["step"], "", "1", "T.n", "()"), True)
-                 if "T" not in st["deleted_spaces"] else None),
+                 if not _gone(st, "T") else None),
                 e_simple("space-clear-all", ("space_clear_all", "S")), e_flip("flip-mid", "T", "b"),
-                e_input("input-leaf", "S", "c", (), 50)]
+                e_input("input-leaf", "S", "c", (), 50),
+                # values assigned by the user that are held when their space is deleted, and their dependents elsewhere
+                q("q-top-via-childspace", "S", "a3"), e_input("input-mid-otherspace", "T", "b", (), 40),
+                e_input("input-childspace-leaf", "T.Ch", "k", (), 30), ("del-child-space", "edit", delchild)]
 
 
 class Reads(Family):
@@ -579,10 +605,27 @@ class Items(Family):
                 e_flip("flip-item-leaf", "P", "u"), e_formula("formula-item-mid", "P", "c", [self.C2]),
                 ("new-cells-in-parametrised", "edit", lambda st: ("newcells", "P", "n%d" % st["step"], F("n%d" % st["step"], "", "1", "P.n", "()"), True)),
                 e_simple("change-space-formula", ("raw", "m.P.formula = 'lambda i, j=0: None'")),
-                e_clear("clear_at-top", "clear_at", "S", "top", ())]
+                e_clear("clear_at-top", "clear_at", "S", "top", ()),
+                # values assigned by the user in cells of an ItemSpace, held when the ItemSpace is deleted
+                ("input-item-leaf", "edit", lambda st: ("input", "P[1]", "u", (2,), 77) if _cached(st, "P", "u") else None),
+                e_simple("input-item-mid", ("input", "P[2]", "c", (1,), 88)),
+                e_simple("del-item", ("raw", "for _s in [s for s in m.P.itemspaces.values() if s.argvalues[0] == 1]:\n    del m.P[1]"))]
 
 
 FAMILIES = [Diamond(), Recur(), Fail(), Cross(), Reads(), UChain(), Inherit(), Items()]
+
+
+def is_assignment(optag):
+    return optag.startswith("input")
+
+
+DELETION_TAGS = ("del-", "rename", "remove-base", "clear-item", "clear-all-items", "space-clear-all", "change-space-formula",
+                 "set-ref-in-parametrised", "new-cells-in-parametrised", "flip-item", "formula-item")
+
+
+def is_deletion(optag):
+    """Edits that delete cells, a space or ItemSpaces (directly, or because the ItemSpaces are rebuilt)."""
+    return optag.startswith(DELETION_TAGS)
 
 
 def flag_variants(fam, tier):
@@ -672,7 +715,7 @@ def run_history(item):
                 if op[0] == "delcells":
                     deleted_ifaces.append(run.obj(op[1] + "." + op[2]))
                 elif op[0] == "delspace":
-                    deleted_ifaces.extend(run.obj(op[1]).cells.values())
+                    deleted_ifaces.extend(c for sp_ in spaces_of_space(run.obj(op[1])) for c in sp_.cells.values())
                 if op[0] == "setref" and op[1] and op[2] == "g":
                     ghost.shadowed.add(op[1])
                 r = run.edit(op)
@@ -716,6 +759,13 @@ def enumerate_items(tier, rng):
                 hs += [(a, b, c) for a in qs for b in es for c in qs]
             else:
                 hs += [(a, b, c) for a in range(n) for b in range(n) for c in range(n)]
+            # an assigned value is held when its cells / space / ItemSpace goes away: assignment, any step, deletion
+            # (quick; part of the triples in the thorough tier) and assignment, query, deletion, query
+            ins = [i for i in es if is_assignment(alpha[i][0])]
+            dels = [i for i in es if is_deletion(alpha[i][0])]
+            if tier == "quick":
+                hs += [(a, b, c) for a in ins for b in range(n) for c in dels]
+            hs += [(a, b, c, d) for a in ins for b in qs for c in dels for d in qs]
             for h in hs:
                 items.append((fi, bits, h))
     random.Random(20261002).shuffle(items)        # fixed order: a run cut by the budget still spans every family
@@ -735,7 +785,10 @@ def run(res, tier, seed):
     res.bound = ("%d model families (%s; <= 8 cells, <= 6 held elements), cached/uncached assignments of the flagged cells "
                  "(quick: default, single deviations, all-uncached; thorough: all 2^n), every history of <= 2 steps over the "
                  "family's alphabet (14-19 queries/edits) + every query-edit-query triple (quick) / every history of <= 3 steps "
-                 "(thorough); histories of 4-5 steps sampled") % (len(FAMILIES), ", ".join(f.name for f in FAMILIES))
+                 "(thorough); + every (value assignment, any step, deleting edit) and (value assignment, query, deleting edit, "
+                 "query) history, deleting edit = deletion / renaming of cells, of a space or child space, of ItemSpaces "
+                 "(del, clear_at, clear_items, clear_all, formula / reference / cells changes of the parametrised space), "
+                 "removal of a base; histories of 4-5 steps sampled") % (len(FAMILIES), ", ".join(f.name for f in FAMILIES))
     res.rule = ("exhaustive product family x flag assignment x history, then seeded random longer histories; all checks "
                 "run after every step; a history is non-trivial when at some step a held computed element had at least one "
                 "recorded callee or reference read (the contract's antecedent); histories containing a step that is not "
